@@ -1,0 +1,310 @@
+//go:build verif
+
+// Contracts for /verif (contract-based deductive verification), package wsutil.
+// Compiled only with the build tag "verif"; nothing here is called by the library.
+
+package wsutil
+
+import (
+	"io"
+
+	"github.com/gobwas/ws"
+)
+
+// ---------------------------------------------------------------------------
+// Ghost vocabulary (interpreted by the VC generator).
+
+func forall(lo, hi int, f func(k int) bool) bool {
+	for k := lo; k < hi; k++ {
+		if !f(k) {
+			return false
+		}
+	}
+	return true
+}
+
+func exists(lo, hi int, f func(k int) bool) bool {
+	for k := lo; k < hi; k++ {
+		if f(k) {
+			return true
+		}
+	}
+	return false
+}
+
+func ghostOld() {}
+
+func iteInt(c bool, a, b int) int {
+	if c {
+		return a
+	}
+	return b
+}
+
+func iteByte(c bool, a, b byte) byte {
+	if c {
+		return a
+	}
+	return b
+}
+
+func inPos(r io.Reader) int                  { return 0 }
+func inEnd(r io.Reader) int                  { return 0 }
+func inByte(r io.Reader, i int) byte         { return 0 }
+func inErr(r io.Reader) error                { return nil }
+func outLen(w io.Writer) int                 { return 0 }
+func outCalls(w io.Writer) int               { return 0 }
+func outByte(w io.Writer, i int) byte        { return 0 }
+func sameBase(a, b []byte) bool              { return false }
+func sameSlice(a, b []byte) bool             { return false }
+func offOf(a []byte) int                     { return 0 }
+func fresh(b []byte) bool                    { return false }
+func freshStr(s string) bool                 { return false }
+func strViewOf(s string, b []byte) bool      { return false }
+func validUTF8(s string) bool                { return false }
+func isNilSlice(b []byte) bool               { return b == nil }
+func dynTypeIs(x interface{}, t string) bool { return false }
+func notPartOf(b []byte, x interface{}) bool { return true }
+
+func streamOK(r io.Reader) bool {
+	return 0 <= inPos(r) && inPos(r) <= inEnd(r) && inEnd(r) <= 1<<48
+}
+
+func outOK(w io.Writer) bool { return 0 <= outLen(w) && outLen(w) <= 1<<48 }
+
+var _ = ws.StateServerSide
+
+// ---------------------------------------------------------------------------
+// Abstract I/O (assumed contracts; see DESIGN.md §2.7).
+
+//@ iface io.Reader.Read(p []byte) (n int, err error)
+//@   requires [stream] streamOK(self)
+//@   ensures  [n]    0 <= n && n <= len(p) && n <= inEnd(self)-old(inPos(self))
+//@   ensures  [pos]  inPos(self) == old(inPos(self))+n
+//@   ensures  [data] forall(0, n, func(k int) bool { return p[k] == inByte(self, old(inPos(self))+k) })
+//@   ensures  [err]  err != nil ==> inPos(self) == inEnd(self) && err == inErr(self)
+//@   assigns bytes(p), stream(self)
+
+//@ iface io.Writer.Write(p []byte) (n int, err error)
+//@   ensures  [calls] outCalls(self) == old(outCalls(self))+1
+//@   ensures  [n]     0 <= n && n <= len(p) && (err == nil ==> n == len(p))
+//@   ensures  [len]   outLen(self) == old(outLen(self))+n
+//@   ensures  [data]  forall(0, n, func(k int) bool { return outByte(self, old(outLen(self))+k) == p[k] })
+//@   ensures  [keep]  forall(0, old(outLen(self)), func(k int) bool { return outByte(self, k) == old(outByte(self, k)) })
+//@   assigns stream(self)
+
+// ---------------------------------------------------------------------------
+// Streaming mask reader / writer (C02).
+
+//@ func NewCipherReader
+//@   props C02 C18
+//@   ensures [new] result.r == r && result.mask == mask && result.pos == 0
+//@   ensures [fresh] result != nil
+//@   assigns nothing
+
+//@ func CipherReader.Reset
+//@   props C02 C18
+//@   ensures [asnew] c.r == r && c.mask == mask && c.pos == 0
+//@   assigns *c
+
+//@ func CipherReader.Read
+//@   props C02 C04
+//@   requires [stream] streamOK(c.r) && c.r != nil
+//@   requires [pos]    0 <= c.pos && c.pos <= 1<<62
+//@   requires [sep]    notPartOf(p, c)
+//@   ensures  [n]    0 <= n && n <= len(p) && n <= inEnd(c.r)-old(inPos(c.r))
+//@   ensures  [src]  inPos(c.r) == old(inPos(c.r))+n
+//@   ensures  [pos]  c.pos == old(c.pos)+n
+//@   ensures  [data] forall(0, n, func(k int) bool { return p[k] == inByte(c.r, old(inPos(c.r))+k)^c.mask[ws.VMaskIdx(old(c.pos), k)] })
+//@   ensures  [err]  err != nil ==> inPos(c.r) == inEnd(c.r) && err == inErr(c.r)
+//@   ensures  [same] c.r == old(c.r) && c.mask == old(c.mask)
+//@   assigns c.pos, bytes(p), stream(c.r)
+
+//@ func NewCipherWriter
+//@   props C02 C18
+//@   ensures [new] result.w == w && result.mask == mask && result.pos == 0
+//@   assigns nothing
+
+//@ func CipherWriter.Reset
+//@   props C02 C18
+//@   ensures [asnew] c.w == w && c.mask == mask && c.pos == 0
+//@   assigns *c
+
+// ---------------------------------------------------------------------------
+// Fragmenting writer (C06, C16, C18).
+
+// specReserve: bytes reserved in front of the payload buffer for the frame header, as a
+// function of the whole buffer size (see the doc comment of NewWriterBuffer).
+func specReserve(state ws.State, n int) int {
+	mask := 0
+	if state&ws.StateClientSide != 0 {
+		mask = 4
+	}
+	if n <= 125+mask+2 {
+		return mask + 2
+	}
+	if n <= 65535+mask+4 {
+		return mask + 4
+	}
+	return mask + 10
+}
+
+// specHdrLen: RFC 6455 §5.2 header size for a payload of n bytes.
+func specHdrLen(n int, masked bool) int {
+	h := 10
+	if n <= 125 {
+		h = 2
+	} else if n <= 65535 {
+		h = 4
+	}
+	if masked {
+		h += 4
+	}
+	return h
+}
+
+// invBuf: buf is raw without the reserved header bytes.
+func invBuf(w *Writer) bool {
+	off := specReserve(w.state, len(w.raw))
+	return sameBase(w.buf, w.raw) && offOf(w.buf) == offOf(w.raw)+off && len(w.buf) == len(w.raw)-off &&
+		len(w.buf) > 0 && len(w.raw) <= 1<<47
+}
+
+// invWriter is the representation invariant of Writer.
+func invWriter(w *Writer) bool {
+	return invBuf(w) && 0 <= w.n && w.n <= len(w.buf) && w.fseq >= 0 && w.op < 16
+}
+
+// lemmaReserve: a payload that fits the buffer always has a header that fits the reservation.
+func lemmaReserve(state ws.State, size int, pay int) bool {
+	return specHdrLen(pay, state&ws.StateClientSide != 0) <= specReserve(state, size)
+}
+
+//@ func lemmaReserve
+//@   props C06
+//@   requires [dom] 0 <= pay && 0 <= size && size <= 1<<47 && pay <= size-specReserve(state, size)
+//@   ensures  [fits] result
+
+//@ func reserve
+//@   props C06 C18
+//@   ensures [spec] offset == specReserve(state, n)
+//@   assigns nothing
+
+//@ func headerSize
+//@   props C06 C08
+//@   requires [n] n >= 0
+//@   ensures [spec] result == specHdrLen(n, s&ws.StateClientSide != 0)
+//@   assigns nothing
+
+//@ func Writer.initBuf
+//@   props C06 C18
+//@   requires [room] len(w.raw) > specReserve(w.state, len(w.raw)) && len(w.raw) <= 1<<47
+//@   ensures  [inv]  invBuf(w)
+//@   assigns w.buf
+
+//@ func NewWriterBuffer
+//@   props C06 C18
+//@   requires [room] len(buf) > specReserve(state, len(buf)) && len(buf) <= 1<<47 && op < 16
+//@   ensures  [new]  result.dest == dest && result.state == state && result.op == op && sameSlice(result.raw, buf)
+//@   ensures  [zero] result.n == 0 && !result.dirty && result.fseq == 0 && len(result.extensions) == 0 && !result.noFlush && result.err == nil
+//@   ensures  [inv]  invWriter(result)
+//@   assigns nothing
+
+//@ func Writer.Reset
+//@   props C18 C06
+//@   requires [room] len(w.raw) > specReserve(state, len(w.raw)) && len(w.raw) <= 1<<47 && op < 16
+//@   ensures  [asnew] w.dest == dest && w.state == state && w.op == op && sameSlice(w.raw, old(w.raw))
+//@   ensures  [zero]  w.n == 0 && !w.dirty && w.fseq == 0 && len(w.extensions) == 0 && !w.noFlush && w.err == nil
+//@   ensures  [inv]   invWriter(w)
+//@   assigns *w
+
+//@ func Writer.ResetOp
+//@   props C18
+//@   ensures [op]   w.op == op && w.n == 0 && !w.dirty && w.fseq == 0
+//@   ensures [keep] w.noFlush == old(w.noFlush) && len(w.extensions) == old(len(w.extensions)) && w.dest == old(w.dest) && w.state == old(w.state)
+//@   assigns w.op, w.n, w.dirty, w.fseq
+
+//@ func Writer.opCode
+//@   props C06
+//@   ensures [first] w.fseq <= 0 ==> result == w.op
+//@   ensures [cont]  w.fseq > 0 ==> result == ws.OpContinuation
+//@   assigns nothing
+
+//@ func Writer.Size
+//@   props C06
+//@   ensures [v] result == len(w.buf)
+//@   assigns nothing
+
+//@ func Writer.Available
+//@   props C06
+//@   ensures [v] result == len(w.buf)-w.n
+//@   assigns nothing
+
+//@ func Writer.Buffered
+//@   props C06
+//@   ensures [v] result == w.n
+//@   assigns nothing
+
+//@ func bytesWriter.Write
+//@   props C06
+//@   requires [pos] 0 <= w.pos && w.pos <= len(w.buf)
+//@   requires [sep] notPartOf(p, w) && !sameBase(p, w.buf)
+//@   ensures  [n]   result0 == iteInt(len(p) < len(w.buf)-old(w.pos), len(p), len(w.buf)-old(w.pos)) && w.pos == old(w.pos)+result0
+//@   ensures  [err] (result1 == nil) == (result0 == len(p))
+//@   ensures  [data] forall(0, result0, func(k int) bool { return w.buf[old(w.pos)+k] == p[k] })
+//@   assigns w.pos, bytes(w.buf)
+
+//@ iface wsutil.SendExtension.SetBits(h ws.Header) (rh ws.Header, err error)
+//@   ensures [only-rsv] rh.Fin == h.Fin && rh.OpCode == h.OpCode && rh.Masked == h.Masked && rh.Mask == h.Mask && rh.Length == h.Length && rh.Rsv < 8
+//@   assigns nothing
+
+// specB1 is the second header byte for a payload of n bytes.
+func specB1(n int, masked bool) byte {
+	var b byte
+	if masked {
+		b = 0x80
+	}
+	if n <= 125 {
+		return b | byte(n)
+	}
+	if n <= 65535 {
+		return b | 126
+	}
+	return b | 127
+}
+
+// specExtByte is byte j (0-based) of the big-endian extended length field of a payload of n bytes.
+func specExtByte(n int, j int) byte {
+	if n <= 65535 {
+		return byte(uint64(n) >> (8 * uint(1-j)))
+	}
+	return byte(uint64(n) >> (8 * uint(7-j)))
+}
+
+func specExtLen(n int) int {
+	if n <= 125 {
+		return 0
+	}
+	if n <= 65535 {
+		return 2
+	}
+	return 8
+}
+
+//@ func Writer.flushFragment
+//@   props C06 C13
+//@   call ws.WriteHeader inline
+//@   call bytesWriter.Write inline
+//@   cases side: w.state&ws.StateClientSide != 0 | !(w.state&ws.StateClientSide != 0)
+//@   cases len: int64(w.n) < 126 && int64(w.n) <= 125 && int64(w.n) <= 65535 | !(int64(w.n) < 126) && !(int64(w.n) <= 125) && int64(w.n) <= 65535 | !(int64(w.n) < 126) && !(int64(w.n) <= 125) && !(int64(w.n) <= 65535)
+//@   requires [inv]  invWriter(w) && w.dest != nil && outOK(w.dest) && w.fseq <= 1<<40
+//@   requires [rsv]  len(w.extensions) == 0
+//@   ensures  [calls] outCalls(w.dest) == old(outCalls(w.dest))+1
+//@   ensures  [len]  err == nil ==> outLen(w.dest) == old(outLen(w.dest))+specHdrLen(w.n, w.state&ws.StateClientSide != 0)+w.n
+//@   ensures  [b0]   err == nil ==> outByte(w.dest, old(outLen(w.dest))) == iteByte(fin, 0x80, 0)|byte(iteInt(w.fseq > 0, 0, int(w.op)))
+//@   ensures  [b1]   err == nil ==> outByte(w.dest, old(outLen(w.dest))+1) == specB1(w.n, w.state&ws.StateClientSide != 0)
+//@   ensures  [ext]  err == nil ==> forall(0, specExtLen(w.n), func(k int) bool { return outByte(w.dest, old(outLen(w.dest))+2+k) == specExtByte(w.n, k) })
+//@   ensures  [payload] err == nil ==> forall(0, w.n, func(k int) bool { return outByte(w.dest, old(outLen(w.dest))+specHdrLen(w.n, w.state&ws.StateClientSide != 0)+k) == old(w.buf[k])^iteByte(w.state&ws.StateClientSide != 0, outByte(w.dest, old(outLen(w.dest))+specHdrLen(w.n, true)-4+k%4), 0) })
+//@   ensures  [keep] forall(0, old(outLen(w.dest)), func(k int) bool { return outByte(w.dest, k) == old(outByte(w.dest, k)) })
+//@   assigns bytes(w.raw), stream(w.dest)
+//@   loop 1 invariant [hdr] header.Fin == fin && header.Length == int64(w.n) && !header.Masked && header.Rsv < 8 && err == nil && header.OpCode == w.opCode() && (len(w.extensions) == 0 ==> header.Rsv == 0)
